@@ -223,4 +223,17 @@ theorem exact_doubling : DoublingNonzero exactArith := by
   | pinf => simp only [exactArith, two]; decide +kernel
   | ninf => simp only [exactArith, two]; decide +kernel
 
+
+theorem float_doubling : DoublingNonzero floatArith := by
+  intro w h
+  cases w with
+  | fin q =>
+    have hq : q ≠ 0 := (ne_fin_zero q).1 h
+    have h2 : q * 2 ≠ 0 := by grind
+    simp only [floatArith, xmul, two, rnN]
+    exact fin_ne_zero (fun e => h2 ((Wrap.rn_eq_zero_iff _).1 e))
+  | nan => simp [floatArith, xmul, rnN, zero]
+  | pinf => simp only [floatArith, two]; decide +kernel
+  | ninf => simp only [floatArith, two]; decide +kernel
+
 end Ioflo.Pid
